@@ -175,6 +175,54 @@ func VerifRendezvousInsertionOrder() {
 	verif.Assert("truncated-is-prefix", verifRSame(verifRLabelsOf(lk), verifRLabelsOf(la)[:len(lk)]))
 }
 
+// VerifRendezvousHistory: minimal disruption holds for every single-node
+// change, not only for the first one on a freshly filled hash: after the nodes
+// were added in an arbitrary order, a sequence of steps each removes a present
+// node or adds an absent one (case split over the label universe), and after
+// every step the list is sorted and differs from the previous list by exactly
+// that node.
+func VerifRendezvousHistory() {
+	verif.Option("hrw_score_uninterpreted", 1)
+	n := verif.Len("nodes", 2, verif.Bound("nodes_history", 3, 4))
+	steps := verif.Bound("steps_history", 2, 3)
+	universe := n + 1 // one label that is absent at the start
+	weights := verifRWeights(universe)
+	sc := verifRNewScores(weights)
+	rh := sc.newHash()
+	present := make([]bool, universe)
+	count := 0
+	for _, i := range verifRPermutation(n) {
+		rh.AddNode(verifRLabels[i], weights[verifRLabels[i]])
+		present[i] = true
+		count++
+	}
+	before := verifRLabelsOf(rh.GetOrderedNodes(verifRKey, count))
+	removals := 0
+	for s := 0; s < steps; s++ {
+		t := verif.Choice("changed_node", universe)
+		x := verifRLabels[t]
+		if present[t] {
+			rh.RemoveNode(x)
+			present[t] = false
+			count--
+			removals++
+			after := rh.GetOrderedNodes(verifRKey, count)
+			verifRCheckSorted(rh, after)
+			verif.Assert("removal-only-removes-the-node", verifRSame(verifRLabelsOf(after), verifRWithout(before, x)))
+			before = verifRLabelsOf(after)
+		} else {
+			rh.AddNode(x, weights[x])
+			present[t] = true
+			count++
+			after := rh.GetOrderedNodes(verifRKey, count)
+			verifRCheckSorted(rh, after)
+			verif.Assert("addition-only-inserts-the-node", verifRSame(verifRWithout(verifRLabelsOf(after), x), before))
+			before = verifRLabelsOf(after)
+		}
+	}
+	verif.Cover("two-removals", removals >= 2)
+}
+
 // VerifRendezvousMinimalDisruption: removing a node only removes it from the
 // key's list; adding one only inserts it.
 func VerifRendezvousMinimalDisruption() {
